@@ -704,3 +704,142 @@ def extra_stage(tier, rng, work):
     cov = dict(blackbox_scenarios=len(scns), blackbox_disagreements_first_run=len(bad), blackbox_confirmed=len(confirmed),
                blackbox_kinds=sorted(set(k for k, _ in scns)))
     return dict(failures=failures, viols=viols, coverage=cov)
+
+
+# ---------------------------------------------------------------------------
+# black-box tier, H2/TLS frontend: three streams share one client connection; the middle one
+# goes to the cluster whose backend injects the fault, its siblings to an HTTP/1 and an h2c backend
+
+HARNESS_BINS = ["c02", "c02bb", "c02h2bb"]
+
+
+def h2_scenarios(tier):
+    s = [("close_at", k) for k in (0, 30, 57, 70, 77)]
+    s += [("refuse", 0), ("stall", 0), ("stall_after", 65), ("reset_at", 0), ("reset_at", 65), ("garbage", 0),
+          ("chunked_close_at", 60), ("chunked_close_at", len(HEAD_CH + CHUNKED)), ("close_delim_at", 50),
+          ("close_delim_at", len(HEAD_CD + BODY)), ("nobackend", 0), ("nohost", 0)]
+    if tier != "quick":
+        s += [("close_at", k) for k in range(1, len(HEAD_CL + BODY), 4)]
+        s += [("reset_at", k) for k in range(3, len(HEAD_CL + BODY), 7)]
+        s += [("chunked_close_at", k) for k in range(0, len(HEAD_CH + CHUNKED), 5)]
+        s += [("close_delim_at", k) for k in range(len(HEAD_CD) - 2, len(HEAD_CD + BODY))]
+    return s
+
+
+def run_h2(scns, work, tag):
+    p = os.path.join(work, "bbh2_%s.txt" % tag)
+    with open(p, "w") as f:
+        for i, (kind, k) in enumerate(scns):
+            f.write("scn %d %s %d\n" % (i, kind, k))
+    rc, o, e, dt = vlib.sh([vlib.harness_path("c02h2bb"), p], timeout=300, cwd=work)
+    res, alive = {}, None
+    for line in o.splitlines():
+        w = line.split()
+        if len(w) >= 3 and w[0] == "res":
+            d = {}
+            for kv in w[3:]:
+                if "=" in kv:
+                    a, b = kv.split("=", 1)
+                    d[a] = int(b) if b.lstrip("-").isdigit() else b
+            res.setdefault(int(w[1]), {})[int(w[2])] = d
+        if w and w[0] == "alive":
+            alive = w[1] == "1"
+    return rc, res, alive, e[-400:]
+
+
+def classify_h2(d):
+    if d.get("end") == "clean":
+        return "relay" if d.get("status") == 200 else "default %s" % d.get("status")
+    if d.get("end") == "rst":
+        return "abort"
+    return "unanswered-close" if d.get("closed") else "hang"
+
+
+def model_predictions_h2(schedules, work):
+    drv, prob = vlib.model_build(RUN_MODULE, RUN_FN)
+    if drv is None:
+        raise RuntimeError(prob)
+    p = os.path.join(work, "bbh2_model.txt")
+    with open(p, "w") as f:
+        f.write("case 0\n")
+        for sch in schedules:
+            f.write("op auto 1 0 " + " ".join(sch) + "\n")
+        f.write("end\n")
+    rc, out, e, dt = vlib.sh([drv, p, "--print"], timeout=120, cwd=work)
+    return [[vlib.tok_parse(x) for x in l.split()[2:]] for l in out.splitlines() if l.startswith("mobs")]
+
+
+def h2_stage(tier, work):
+    scns = h2_scenarios(tier)
+    flat, index = [], []
+    for kind, k in scns:
+        sch, blen = predict_inputs(kind, k)
+        index.append((len(flat), len(sch), blen))
+        flat += sch
+    preds = model_predictions_h2(flat, work)
+    if len(preds) != len(flat):
+        return dict(failures=["black-box h2: model printed %d predictions for %d schedules" % (len(preds), len(flat))], viols=[], coverage={})
+
+    def judge(res, alive):
+        bad = []
+        if alive is False:
+            bad.append((0, "bb2-worker-died", "the worker thread ended during the H2 scenarios"))
+        for i, (kind, k) in enumerate(scns):
+            r = res.get(i)
+            if not r or 1 not in r:
+                bad.append((i, "bb2-no-result", "h2 %s %d: no result from the driver" % (kind, k)))
+                continue
+            # siblings on the same connection must complete untouched (isolation)
+            for j, want_body in ((0, 4), (2, 6)):
+                d = r.get(j, {})
+                if classify_h2(d) != "relay" or d.get("body") != want_body:
+                    bad.append((i, "bb2-sibling", "h2 %s %d: sibling stream %d on the same connection: %s body=%s (expected 200, %d bytes, END_STREAM)"
+                                % (kind, k, 1 + 2 * j, classify_h2(d), d.get("body"), want_body)))
+            d = r[1]
+            got = classify_h2(d)
+            start, n, blen = index[i]
+            want = sorted(set(classify_events(p) for p in preds[start:start + n]))
+            if d.get("code") == 9999:
+                bad.append((i, "bb2-two-answers", "h2 %s %d: frames follow the end of the stream" % (kind, k)))
+            if got == "hang":
+                bad.append((i, "bb2-hang", "h2 %s %d: no answer, no RST_STREAM and no close within the deadline" % (kind, k)))
+            elif got == "unanswered-close":
+                bad.append((i, "bb2-unanswered-close", "h2 %s %d: the connection was closed while the stream had no answer (the automaton predicts %s)" % (kind, k, want)))
+            elif got not in want:
+                bad.append((i, "bb2-mismatch", "h2 %s %d: client observed '%s', the automaton predicts %s" % (kind, k, got, want)))
+            if got == "relay" and blen is not None and d.get("body") != blen:
+                bad.append((i, "bb2-body", "h2 %s %d: END_STREAM after %s body bytes, backend sent %d" % (kind, k, d.get("body"), blen)))
+        return bad
+
+    failures, viols = [], []
+    rc, res, alive, err = run_h2(scns, work, "0")
+    if rc != 0:
+        failures.append("black-box h2 driver exit %d: %s" % (rc, err))
+    bad = judge(res, alive)
+    confirmed = []
+    if bad:
+        again = []
+        for n in (1, 2, 3):
+            rc2, res2, alive2, _ = run_h2(scns, work, str(n))
+            again.append(set((i, c) for i, c, _ in judge(res2, alive2)))
+        confirmed = [(i, c, t) for (i, c, t) in bad if all((i, c) in a for a in again)]
+    for (i, c, t) in confirmed:
+        kind, k = scns[i]
+        viols.append((Case("bbh2_%d" % i, [["blackboxh2", kind, k]]), c, t))
+    cov = dict(blackbox_h2_scenarios=len(scns), blackbox_h2_streams=3 * len(scns), blackbox_h2_disagreements_first_run=len(bad),
+               blackbox_h2_unstable=len(bad) - len(confirmed), blackbox_h2_confirmed=len(confirmed))
+    return dict(failures=failures, viols=viols, coverage=cov)
+
+
+_h1_stage = extra_stage
+
+
+def extra_stage(tier, rng, work):
+    a = _h1_stage(tier, rng, work)
+    try:
+        b = h2_stage(tier, work)
+    except Exception as ex:
+        b = dict(failures=["black-box h2 stage: %r" % (ex,)], viols=[], coverage={})
+    cov = dict(a.get("coverage", {}))
+    cov.update(b.get("coverage", {}))
+    return dict(failures=a.get("failures", []) + b.get("failures", []), viols=a.get("viols", []) + b.get("viols", []), coverage=cov)
